@@ -2005,6 +2005,13 @@ impl FilesAndTimes {
         return true;
     }
 
+    /// Forget the recorded files.
+    /// This is called before a table is (re)loaded: if the load fails, the record of the previous successful load
+    /// must not make the (now empty or partially filled) table look up to date.
+    fn invalidate(&mut self) {
+        self.ft.clear();
+    }
+
     fn set_files_and_times(&mut self, new_files: Vec<PathBuf>)  {
         self.ft.clear();
         for path in new_files {
@@ -2183,6 +2190,7 @@ impl SpeechRules {
         let rule_file = self.pref_manager.borrow().get_rule_file(&self.name).to_path_buf();     // need to create PathBuf to avoid a move/use problem
         if self.rules.is_empty() || !self.rule_files.is_file_up_to_date(&rule_file, should_ignore_file_time) {
             self.rules.clear();
+            self.rule_files.invalidate();
             let files_read = self.read_patterns(&rule_file)?;
             self.rule_files.set_files_and_times(files_read);
         }
@@ -2192,6 +2200,7 @@ impl SpeechRules {
 
         if !self.unicode_short_files.borrow().is_file_up_to_date(unicode_pref_files.0, should_ignore_file_time) {
             self.unicode_short.borrow_mut().clear();
+            self.unicode_short_files.borrow_mut().invalidate();
             self.unicode_short_files.borrow_mut().set_files_and_times(self.read_unicode(None, true)?);
         }
 
@@ -2199,6 +2208,7 @@ impl SpeechRules {
                             pref_manager.get_definitions_file(self.name != RulesFor::Braille),
                             should_ignore_file_time
         ) {
+            self.definitions_files.borrow_mut().invalidate();
             self.definitions_files.borrow_mut().set_files_and_times(read_definitions_file(self.name != RulesFor::Braille)?);
         }
         return Ok( () );
@@ -2609,6 +2619,7 @@ impl<'c, 's:'c, 'r, 'm:'c> SpeechRulesWithContext<'c, 's,'m> {
                 if rules.unicode_full.borrow().is_empty() || !rules.unicode_full_files.borrow().is_file_up_to_date(unicode_pref_files.1, should_ignore_file_time) {
                     info!("*** Loading full unicode {} for char '{}'/{:#06x}", rules.name, ch, ch_as_u32);
                     rules.unicode_full.borrow_mut().clear();
+                    rules.unicode_full_files.borrow_mut().invalidate();
                     rules.unicode_full_files.borrow_mut().set_files_and_times(rules.read_unicode(None, false)?);
                     info!("# Unicode defs = {}/{}", rules.unicode_short.borrow().len(), rules.unicode_full.borrow().len());
                 }
